@@ -44,7 +44,8 @@ def monitor(cfg, obs):
         out.append(('completes<=last+T', f'done at {t1:.6f}, last event {last:.6f}'))
     # silence: exactly R+1 identical transmissions spaced T, failure at last + T
     # (only if nothing of an earlier request was still in flight when this one started, and nothing arrived meanwhile)
-    quiet = obs.get('clean_start', True) and not [e for e in obs.events if e[0] == 'rx' and obs.t0 - TOL <= e[2] <= t1 + TOL]
+    quiet = obs.get('clean_start', True) and not [e for e in obs.events if e[0] == 'rx' and obs.t0 - TOL <= e[2] <= t1 + TOL] \
+        and not any(e[0] == 'connect' and e[1] != 'ok' for e in obs.events)
     if all(ltr == 'drop' for ltr in obs.letters) and all(c[1] == 'ok' for c in obs.connects) and quiet:
         if ntx != R + 1:
             out.append(('silent:R+1', f'{ntx} transmissions'))
@@ -201,6 +202,8 @@ def run(tier, seed, rep):
             jobs.append((cfg, 'product', depth_of(cfg, ['ok']), letters, ['ok'], None))
             if cfg['transport'] == 'tcp':
                 jobs.append((cfg, 'deviations', 2, letters, conn, None))
+            else:
+                jobs.append((dict(cfg, udp_connect=True), 'deviations', 2, letters, ['ok'], None))
     # the library's logging at its default level instead of DEBUG (the rest of the exploration runs with DEBUG enabled)
     for tr in ('udp', 'tcp'):
         for ka in (False, True):
